@@ -212,12 +212,13 @@ KFlags == [follow |-> ~WantNoFollow,
            dir    |-> (op.op = "open" /\ op.odir),
            opath  |-> (op.op # "open" \/ op.acc = "PATH"),
            nosym  |-> op.nosym]
-KAnswer(f) ==
-    LET r == KResolve(f, R, path, KFlags, KMaxLinks) IN
+KAnswerN(f, maxlinks) ==
+    LET r == KResolve(f, R, path, KFlags, maxlinks) IN
     IF op.op = "open" THEN OpenPhase(f, r, op.acc, op.odir, FALSE)
     ELSE IF op.op = "readlink" THEN
         IF r.ok THEN (IF IsLnk(f, r.ino) THEN [ok |-> TRUE, body |-> f.body[r.ino], ino |-> r.ino] ELSE Err("ENOENT")) ELSE r
     ELSE r
+KAnswer(f) == KAnswerN(f, KMaxLinks)
 
 K_Openat2 ==
     /\ pc = "start" /\ backend = "kernel"
@@ -322,5 +323,7 @@ ASSUME EmitCases => PrintT(<<"TREES", ToJson(Trees)>>)
 CaseOut ==
     (EmitCases /\ pc = "done" /\ backend = "emulated" /\ natk = 0) =>
         PrintT(<<"CASE", ToJson([tree |-> Trees[tree].name, path |-> path, op |-> op,
-                                  expect |-> Oracle, model |-> res, budget |-> BudgetELOOP])>>)
+                                  expect |-> Oracle, model |-> res, budget |-> BudgetELOOP,
+                                  \* the answer of a walk whose link budget never bites (what a success beyond the kernel's 40 must be)
+                                  free |-> KAnswerN(MkFs(Trees[tree].nodes), EmuMaxLinks + 2)])>>)
 =============================================================================
